@@ -42,6 +42,7 @@ Definition locate_many (ls vs : list label) : res (list nat) :=
 (* tolerance search: np.argmin(np.abs(values - val)), accepted iff within tol *)
 Definition label_num (l : label) : option Q := match l with LAt (ANum q) => Some q | _ => None end.
 Definition locate_one_tol (ls : list label) (v : label) (tol : tolv) : res nat :=
+  match ls with [] => Err IndexError | _ =>        (* an empty axis: nothing is near, whatever is asked for *)
   match label_num v, mapM (fun x => match label_num x with Some q => Ok q | None => Err TypeError end) ls with
   | Some qv, Ok qs =>
       match map (fun q => Qabs.Qabs (q - qv)) qs with
@@ -54,7 +55,7 @@ Definition locate_one_tol (ls : list label) (v : label) (tol : tolv) : res nat :
           end
       end
   | _, _ => Err TypeError
-  end.
+  end end.
 
 Definition numeric_kind (k : kind) : bool := match k with KI | KF => true | _ => false end.
 
